@@ -4,6 +4,7 @@ CONSTANTS
   DBs2 = {"d1", "d2"}
   RPs = {"r1", "autogen"}
   VirtOrgs = {1}
+  CollideOrgs = {}
   MaxOps = 4
   MaxMaps = 3
   KeepObs = TRUE
